@@ -191,6 +191,7 @@ func slbRun() {
 		vh.Emit(map[string]interface{}{"ev": "load", "cid": c.ID, "w": pad(w), "av": av})
 		nEvents++
 		ramping := false
+		sharing := false
 		effWeights := func() []int {
 			o := make([]int, TraceN)
 			for _, st := range obj.brr.VerifSnapshot() {
@@ -205,6 +206,19 @@ func slbRun() {
 			}
 			if op.Op == "sleep" {
 				time.Sleep(time.Duration(op.T) * time.Millisecond)
+				continue
+			}
+			if op.Op == "ssdone" {
+				// the ramp-up period is over: from here on the configured shares apply again
+				ramping = false
+				sharing = true
+				vh.Emit(map[string]interface{}{"ev": "ssdone", "cid": c.ID})
+				nEvents++
+				continue
+			}
+			if op.Op == "sharecheck" {
+				vh.Emit(map[string]interface{}{"ev": "sharecheck", "cid": c.ID})
+				nEvents++
 				continue
 			}
 			if op.Op == "slowstart" {
@@ -240,6 +254,11 @@ func slbRun() {
 						ev["detail"] = detail
 					}
 					vh.Emit(ev)
+					continue
+				}
+				if sharing {
+					id, _ := obj.pick(op.Algo, key)
+					vh.Emit(map[string]interface{}{"ev": "pshare", "cid": c.ID, "b": id})
 					continue
 				}
 				id, detail := obj.pick(op.Algo, key)
